@@ -847,6 +847,9 @@ func c15PerformJoinOn(c *mon.Ctx, r *gen.Rand, sc *simScenario, rb *simBranch, v
 			mjVer = "no.such.version"
 		}
 		tmpl := gmsl.ProtoEvent{SenderID: joiner, RoomID: s.roomID, Type: "m.room.member", StateKey: strp(joiner), Depth: rb.depth + 1, Content: []byte(`{"membership":"join"}`)}
+		if r.Chance(0.1) {
+			tmpl.Content = []byte("null") // a template without content: the joiner supplies the membership anyway
+		}
 		tmpl.PrevEvents = []interface{}{rb.tip}
 		authIDs := []interface{}{}
 		for _, a := range probe.AuthEventIDs() {
@@ -869,9 +872,35 @@ func c15PerformJoinOn(c *mon.Ctx, r *gen.Rand, sc *simScenario, rb *simBranch, v
 		want := allTrue(vec)
 		name := "perform_join:" + vecName(names, vec)
 		c.Case(name, map[string]any{"version": s.ver, "guards": vecName(names, vec)}, func() {
+			// what the resident server echoes as "event": nothing, our join with its own signature added, or something of
+			// its own making in the joiner's name that must not come back as the join
+			echo := r.Intn(5)
 			client := &scriptedJoinClient{
 				makeJoin: func() (gmsl.MakeJoinResponse, error) { return mjResp{proto: tmpl, ver: mjVer}, nil },
-				sendJoin: func(ev gmsl.PDU) (gmsl.SendJoinResponse, error) { return resp, nil },
+				sendJoin: func(ev gmsl.PDU) (gmsl.SendJoinResponse, error) {
+					rs := resp
+					res := serverIdentity(c15local)
+					switch echo {
+					case 1:
+						rs.join = ev.Sign(res.Server, gmsl.KeyID(res.KeyID), res.Priv).JSON()
+					case 2, 3, 4:
+						forged := gmsl.ProtoEvent{SenderID: joiner, RoomID: s.roomID, Type: "m.room.topic", StateKey: strp(joiner), PrevEvents: ev.PrevEventIDs(), AuthEvents: ev.AuthEventIDs(), Depth: ev.Depth(),
+							Content: []byte(`{"membership":"join","topic":"set by the resident server"}`)}
+						if echo == 3 {
+							forged.Type, forged.SenderID = "m.room.member", "@somebodyelse:other.example"
+						}
+						if echo == 4 {
+							forged.Type, forged.Content = "m.room.member", []byte(`{"membership":"join","displayname":"not what the joiner sent"}`)
+						}
+						if s.t.Domainless && len(ev.AuthEventIDs()) > 0 {
+							forged.AuthEvents = ev.AuthEventIDs()[1:]
+						}
+						if f, err := s.impl.NewEventBuilderFromProtoEvent(&forged).Build(baseTime, spec.ServerName(res.Server), gmsl.KeyID(res.KeyID), res.Priv); err == nil {
+							rs.join = f.JSON()
+						}
+					}
+					return rs, nil
+				},
 			}
 			var asked []string
 			rid := s.create.RoomID()
@@ -893,8 +922,11 @@ func c15PerformJoinOn(c *mon.Ctx, r *gen.Rand, sc *simScenario, rb *simBranch, v
 					return
 				}
 				m, _ := out.JoinEvent.Membership()
-				if m != "join" || !out.JoinEvent.StateKeyEquals(joiner) {
-					c.Failf("perform_join:not-a-join", "PerformJoin returned %s", out.JoinEvent.JSON())
+				if m != "join" || !out.JoinEvent.StateKeyEquals(joiner) || out.JoinEvent.Type() != "m.room.member" || string(out.JoinEvent.SenderID()) != joiner {
+					c.Failf("perform_join:not-a-join", "PerformJoin returned as the join (remote echo variant %d): %s", echo, out.JoinEvent.JSON())
+				}
+				if client.sent != nil && out.JoinEvent.EventID() != client.sent.EventID() {
+					c.Failf("perform_join:not-the-join-that-was-sent", "PerformJoin returned %s, the join it sent is %s (remote echo variant %d)", out.JoinEvent.EventID(), client.sent.EventID(), echo)
 				}
 				if !localSigValid(out.JoinEvent, s.t, jid) {
 					c.Failf("perform_join:join-not-signed", "the join event PerformJoin returns is not validly signed by the joining server")
